@@ -143,11 +143,22 @@ func (fc *FnCtx) evalExpr(e Expr, env *Env) Val {
 		}
 		switch xv.K {
 		case KStr:
-			return Val{K: KInt, T: types.Typ[types.Uint8], C: []string{fmt.Sprintf("(select %s (+ %s %s))", xv.C[0], xv.C[1], iv)}}
+			r := Val{K: KInt, T: types.Typ[types.Uint8], C: []string{fmt.Sprintf("(select %s (+ %s %s))", xv.C[0], xv.C[1], iv)}}
+			if fc.inQuant == 0 {
+				fc.assumeHere(fc.typeInv(r)) // an octet
+			}
+			return r
 		case KSlice:
 			et := xv.T.Underlying().(*types.Slice).Elem()
 			l := Loc{T: et, kind: "elem", heap: "A." + typeName(et), ref: xv.C[0], idx: fmt.Sprintf("(+ %s %s)", xv.C[1], iv)}
-			return fc.loadLoc(h, l)
+			r := fc.loadLoc(h, l)
+			if fc.inQuant == 0 {
+				// what memory holds has its type's range (the same fact a load in the code gets)
+				if ti := fc.typeInv(r); ti != "" && ti != "true" {
+					fc.assumeHere(ti)
+				}
+			}
+			return r
 		}
 		fc.fail("cannot index value of kind %d", xv.K)
 	case *ESlice:
@@ -418,6 +429,15 @@ func (fc *FnCtx) evalCall(x *ECall, env *Env) Val {
 		switch v.K {
 		case KStr, KSlice:
 			return intVal(v.C[2])
+		}
+		if v.T != nil {
+			if _, isMap := v.T.Underlying().(*types.Map); isMap {
+				h := env.heap
+				if env.inOld {
+					h = env.old
+				}
+				return intVal(fc.mapLen(h, v.T, v.S()))
+			}
 		}
 		fc.fail("len of kind %d", v.K)
 	case "cap":
